@@ -17,7 +17,7 @@ import multiprocessing as mp
 
 VERIF = os.path.dirname(os.path.dirname(os.path.abspath(__file__)))
 REPO = os.environ.get('FGGS_REPO', '/repo')
-CASE_TIMEOUT_S = 20.0
+CASE_TIMEOUT_S = 120.0
 
 
 def seed():
